@@ -284,28 +284,36 @@ theorem inv_drop (cfg : Cfg) (s : St) (b : Nat) (hI : Inv cfg s) :
   all_goals grind [upd]
 
 
+/-- `Method(name)` never creates a guard: every method mocker is unchanged or a fresh one without guard -/
+theorem methodOf_guard (s : St) (j : Nat) (m : String) :
+    let r := methodOf s j m
+    ∀ i, (r.2.mms i) = (s.mms i) ∨ (r.2.mms i).hasGuard = false := by
+  simp only [methodOf]
+  split
+  · split
+    · intro i; by_cases e : i = s.nmm
+      · subst e; right; simp [freshMM]
+      · left; simp [freshMM, upd_other _ _ _ _ e]
+    · intro i; left; rfl
+  · intro i; by_cases e : i = s.nmm
+    · subst e; right; simp [freshMM]
+    · left; simp [freshMM, upd_other _ _ _ _ e]
+
 /-- the callback kind and the mocker update of a successful mock -/
 def cbOf (kind : Kind) (i : Nat) : Cb := match kind with | .ap => .clo | _ => .mk i
-def whenOf (kind : Kind) (k : Nat) (old : Option When) : Option When :=
-  match kind with | .ap => old | .rt => some ⟨some k, []⟩ | .wn a => some ⟨none, [(a, k)]⟩
+def whenOf (kind : Kind) (k : Nat) : Option When :=
+  match kind with | .ap => none | .rt => some ⟨some k, []⟩ | .wn a => some ⟨none, [(a, k)]⟩
 
-/-- decomposition of a successful `mockStep`: a state `s2` that differs from `s` only in builder/mocker bookkeeping, then
+/-- decomposition of a successful `mockOn`: a state `s2` that differs from `s` only in mocker bookkeeping, then
     `proxy.Interface` on the mocker's own variable, then the method mocker's fields -/
-theorem mockStep_ok (cfg : Cfg) (s s' : St) (b v : Nat) (m : String) (kind : Kind) (hI : Inv cfg s)
-    (hs : mockStep cfg s b v m kind = some (s', .ok)) :
-    ∃ s2 s3 j i, Inv cfg s2 ∧ j < s2.ncm ∧ (s2.ctxs (s2.cms j).ctx).canceled = false
-      ∧ (cfg.keyByVar = true → (s2.cms j).var = v) ∧ m ∈ s2.types (s2.cms j).typ
-      ∧ s2.vars = s.vars ∧ s2.fakes = s.fakes ∧ s2.nfake = s.nfake ∧ s2.types = s.types ∧ s2.vtyp = s.vtyp ∧ s2.cbs = s.cbs
-      ∧ proxyInterface cfg s2 (s2.cms j).var (s2.cms j).typ (s2.cms j).ctx m s.ncb (cbOf kind i) = some s3
-      ∧ s' = { s3 with mms := upd s3.mms i { (s2.mms i) with hasGuard := true, imp := (some s.ncb), when_ := (whenOf kind s.ncb (s2.mms i).when_) } } := by
-  have hI0 := inv_ncb cfg s (s.ncb + 1) hI
-  have f1 := interfaceOf_facts cfg _ b v hI0
-  have hI1 := inv_interfaceOf cfg _ b v hI0
-  simp only [mockStep] at hs
-  generalize hr1 : interfaceOf cfg { s with ncb := s.ncb + 1 } b v = r1 at hs f1 hI1
-  obtain ⟨j, s1⟩ := r1
-  simp only at hs f1 hI1
-  obtain ⟨f1a, f1b, f1c, f1d, f1e, f1f, f1g, f1h, f1i, f1j⟩ := f1
+theorem mockOn_ok (cfg : Cfg) (s1 s' : St) (j : Nat) (m : String) (kind : Kind) (fits : Bool) (k : Nat) (hI1 : Inv cfg s1)
+    (hs : mockOn cfg s1 j m kind fits k = some (s', .ok)) :
+    ∃ s2 s3 i, Inv cfg s2 ∧ fits = true ∧ s2.ncm = s1.ncm ∧ s2.ctxs = s1.ctxs ∧ (s2.cms j).ctx = (s1.cms j).ctx
+      ∧ (s2.cms j).var = (s1.cms j).var ∧ m ∈ s2.types (s2.cms j).typ
+      ∧ s2.vars = s1.vars ∧ s2.fakes = s1.fakes ∧ s2.nfake = s1.nfake ∧ s2.types = s1.types ∧ s2.vtyp = s1.vtyp ∧ s2.cbs = s1.cbs
+      ∧ proxyInterface cfg s2 (s2.cms j).var (s2.cms j).typ (s2.cms j).ctx m k (cbOf kind i) = some s3
+      ∧ s' = { s3 with mms := upd s3.mms i { (s2.mms i) with hasGuard := true, imp := (some k), canceled := false, when_ := (whenOf kind k) } } := by
+  simp only [mockOn] at hs
   split at hs
   · cases hs
   split at hs
@@ -319,50 +327,129 @@ theorem mockStep_ok (cfg : Cfg) (s s' : St) (b v : Nat) (m : String) (kind : Kin
   obtain ⟨g1, g2, g3, g4, g5, g6, g7, g8, g9, g10, g11, g12, g13, g14⟩ := f2
   have hmem' : m ∈ s2.types (s2.cms j).typ := by
     rw [g9, g5]; exact Classical.not_not.mp hmem
-  have hargs : proxyInterface cfg s2 (s1.cms j).var (s1.cms j).typ (s1.cms j).ctx m s.ncb
-      = proxyInterface cfg s2 (s2.cms j).var (s2.cms j).typ (s2.cms j).ctx m s.ncb := by rw [g3, g4, g5]
+  have hargs : ∀ cb, proxyInterface cfg s2 (s1.cms j).var (s1.cms j).typ (s1.cms j).ctx m k cb
+      = proxyInterface cfg s2 (s2.cms j).var (s2.cms j).typ (s2.cms j).ctx m k cb := by intro cb; rw [g3, g4, g5]
   refine ⟨s2, ?_⟩
   cases kind with
   | ap =>
     simp only at hs
-    cases hq : proxyInterface cfg s2 (s1.cms j).var (s1.cms j).typ (s1.cms j).ctx m s.ncb .clo with
+    split at hs
+    · cases hs
+    rename_i hfit
+    cases hq : proxyInterface cfg s2 (s1.cms j).var (s1.cms j).typ (s1.cms j).ctx m k .clo with
     | none => simp [hq] at hs
     | some s3 =>
       simp only [hq, Option.map_some, Option.some.injEq, Prod.mk.injEq, and_true] at hs
-      refine ⟨s3, j, i, hI2, by omega, by rw [g2, g3]; exact f1b, by intro h; rw [g4]; exact f1c h, hmem',
-        by rw [g6, f1d], by rw [g7, f1e], by rw [g8, f1f], by rw [g9, f1g], by rw [g10, f1h], by rw [g11, f1i], ?_, ?_⟩
+      refine ⟨s3, i, hI2, by simpa using hfit, g1, g2, g3, g4, hmem', g6, g7, g8, g9, g10, g11, ?_, ?_⟩
       · rw [← hargs]; exact hq
       · rw [← hs]; rfl
   | rt =>
     simp only at hs
     split at hs
     · cases hs
-    · rename_i hwn
-      cases hq : proxyInterface cfg s2 (s1.cms j).var (s1.cms j).typ (s1.cms j).ctx m s.ncb (.mk i) with
-      | none => simp [hq] at hs
-      | some s3 =>
-        simp only [hq, Option.map_some, Option.some.injEq, Prod.mk.injEq, and_true] at hs
-        refine ⟨s3, j, i, hI2, by omega, by rw [g2, g3]; exact f1b, by intro h; rw [g4]; exact f1c h, hmem',
-          by rw [g6, f1d], by rw [g7, f1e], by rw [g8, f1f], by rw [g9, f1g], by rw [g10, f1h], by rw [g11, f1i], ?_, ?_⟩
-        · rw [← hargs]; exact hq
-        · rw [← hs]; rfl
+    split at hs
+    · cases hs
+    rename_i hfit
+    cases hq : proxyInterface cfg s2 (s1.cms j).var (s1.cms j).typ (s1.cms j).ctx m k (.mk i) with
+    | none => simp [hq] at hs
+    | some s3 =>
+      simp only [hq, Option.map_some, Option.some.injEq, Prod.mk.injEq, and_true] at hs
+      refine ⟨s3, i, hI2, by simpa using hfit, g1, g2, g3, g4, hmem', g6, g7, g8, g9, g10, g11, ?_, ?_⟩
+      · rw [← hargs]; exact hq
+      · rw [← hs]; rfl
   | wn a =>
     simp only at hs
     split at hs
     · cases hs
-    · rename_i hwn
-      cases hq : proxyInterface cfg s2 (s1.cms j).var (s1.cms j).typ (s1.cms j).ctx m s.ncb (.mk i) with
-      | none => simp [hq] at hs
-      | some s3 =>
-        simp only [hq, Option.map_some, Option.some.injEq, Prod.mk.injEq, and_true] at hs
-        refine ⟨s3, j, i, hI2, by omega, by rw [g2, g3]; exact f1b, by intro h; rw [g4]; exact f1c h, hmem',
-          by rw [g6, f1d], by rw [g7, f1e], by rw [g8, f1f], by rw [g9, f1g], by rw [g10, f1h], by rw [g11, f1i], ?_, ?_⟩
-        · rw [← hargs]; exact hq
-        · rw [← hs]; rfl
+    split at hs
+    · cases hs
+    rename_i hfit
+    cases hq : proxyInterface cfg s2 (s1.cms j).var (s1.cms j).typ (s1.cms j).ctx m k (.mk i) with
+    | none => simp [hq] at hs
+    | some s3 =>
+      simp only [hq, Option.map_some, Option.some.injEq, Prod.mk.injEq, and_true] at hs
+      refine ⟨s3, i, hI2, by simpa using hfit, g1, g2, g3, g4, hmem', g6, g7, g8, g9, g10, g11, ?_, ?_⟩
+      · rw [← hargs]; exact hq
+      · rw [← hs]; rfl
 
+/-- a `mockOn` that panics (unknown method, empty name, rejected signature) leaves every variable and every fake
+    interface untouched — in particular no guard and no backup exist for a rejected `Apply` -/
+theorem mockOn_panic (cfg : Cfg) (s1 s' : St) (j : Nat) (m : String) (kind : Kind) (fits : Bool) (k : Nat) (c : String)
+    (hI1 : Inv cfg s1) (hs : mockOn cfg s1 j m kind fits k = some (s', .panic c)) :
+    Inv cfg s' ∧ s'.vars = s1.vars ∧ s'.fakes = s1.fakes ∧ s'.ctxs = s1.ctxs
+      ∧ (∀ i, (s'.mms i).hasGuard = true → i < s1.nmm ∧ (s1.mms i).hasGuard = true ∨ False ∨ (s'.mms i) = (s1.mms i)) := by
+  simp only [mockOn] at hs
+  split at hs
+  · simp only [Option.some.injEq, Prod.mk.injEq] at hs; obtain ⟨h1, _⟩ := hs; subst h1
+    exact ⟨hI1, rfl, rfl, rfl, fun i _ => Or.inr (Or.inr rfl)⟩
+  split at hs
+  · simp only [Option.some.injEq, Prod.mk.injEq] at hs; obtain ⟨h1, _⟩ := hs; subst h1
+    exact ⟨hI1, rfl, rfl, rfl, fun i _ => Or.inr (Or.inr rfl)⟩
+  have f2 := methodOf_facts s1 j m
+  have hI2 := inv_methodOf cfg s1 j m hI1
+  have hg := methodOf_guard s1 j m
+  generalize hr2 : methodOf s1 j m = r2 at hs f2 hI2 hg
+  obtain ⟨i, s2⟩ := r2
+  simp only at hs f2 hI2 hg
+  obtain ⟨g1, g2, g3, g4, g5, g6, g7, g8, g9, g10, g11, g12, g13, g14⟩ := f2
+  have fin : ∀ s'' : St, s'' = s2 → Inv cfg s'' ∧ s''.vars = s1.vars ∧ s''.fakes = s1.fakes ∧ s''.ctxs = s1.ctxs
+      ∧ (∀ i, (s''.mms i).hasGuard = true → i < s1.nmm ∧ (s1.mms i).hasGuard = true ∨ False ∨ (s''.mms i) = (s1.mms i)) := by
+    intro s'' e; subst e
+    refine ⟨hI2, g6, g7, g2, ?_⟩
+    intro i' hi'
+    rcases hg i' with h | h
+    · exact Or.inr (Or.inr h)
+    · rw [h] at hi'; cases hi'
+  cases kind with
+  | ap =>
+    simp only at hs
+    split at hs
+    · simp only [Option.some.injEq, Prod.mk.injEq] at hs; exact fin s' hs.1.symm
+    cases hq : proxyInterface cfg s2 (s1.cms j).var (s1.cms j).typ (s1.cms j).ctx m k .clo with
+    | none => simp [hq] at hs
+    | some s3 => simp [hq] at hs
+  | rt =>
+    simp only at hs
+    split at hs
+    · cases hs
+    split at hs
+    · simp only [Option.some.injEq, Prod.mk.injEq] at hs; exact fin s' hs.1.symm
+    cases hq : proxyInterface cfg s2 (s1.cms j).var (s1.cms j).typ (s1.cms j).ctx m k (.mk i) with
+    | none => simp [hq] at hs
+    | some s3 => simp [hq] at hs
+  | wn a =>
+    simp only at hs
+    split at hs
+    · cases hs
+    split at hs
+    · simp only [Option.some.injEq, Prod.mk.injEq] at hs; exact fin s' hs.1.symm
+    cases hq : proxyInterface cfg s2 (s1.cms j).var (s1.cms j).typ (s1.cms j).ctx m k (.mk i) with
+    | none => simp [hq] at hs
+    | some s3 => simp [hq] at hs
 
-theorem mockStep_panic (cfg : Cfg) (s s' : St) (b v : Nat) (m : String) (kind : Kind) (c : String) (hI : Inv cfg s)
-    (hs : mockStep cfg s b v m kind = some (s', .panic c)) :
+/-- decomposition of a successful `mockStep` (builder API) -/
+theorem mockStep_ok (cfg : Cfg) (s s' : St) (b v : Nat) (m : String) (kind : Kind) (fits : Bool) (hI : Inv cfg s)
+    (hs : mockStep cfg s b v m kind fits = some (s', .ok)) :
+    ∃ s2 s3 j i, Inv cfg s2 ∧ j < s2.ncm ∧ (s2.ctxs (s2.cms j).ctx).canceled = false
+      ∧ (cfg.keyByVar = true → (s2.cms j).var = v) ∧ m ∈ s2.types (s2.cms j).typ
+      ∧ s2.vars = s.vars ∧ s2.fakes = s.fakes ∧ s2.nfake = s.nfake ∧ s2.types = s.types ∧ s2.vtyp = s.vtyp ∧ s2.cbs = s.cbs
+      ∧ proxyInterface cfg s2 (s2.cms j).var (s2.cms j).typ (s2.cms j).ctx m s.ncb (cbOf kind i) = some s3
+      ∧ s' = { s3 with mms := upd s3.mms i { (s2.mms i) with hasGuard := true, imp := (some s.ncb), canceled := false, when_ := (whenOf kind s.ncb) } }
+      ∧ fits = true := by
+  have hI0 := inv_ncb cfg s (s.ncb + 1) hI
+  have f1 := interfaceOf_facts cfg _ b v hI0
+  have hI1 := inv_interfaceOf cfg _ b v hI0
+  simp only [mockStep] at hs
+  generalize hr1 : interfaceOf cfg { s with ncb := s.ncb + 1 } b v = r1 at hs f1 hI1
+  obtain ⟨j, s1⟩ := r1
+  simp only at hs f1 hI1
+  obtain ⟨f1a, f1b, f1c, f1d, f1e, f1f, f1g, f1h, f1i, f1j⟩ := f1
+  obtain ⟨s2, s3, i, hI2, hfit, g1, g2, g3, g4, hmem, g6, g7, g8, g9, g10, g11, hp, he⟩ := mockOn_ok cfg s1 s' j m kind fits s.ncb hI1 hs
+  exact ⟨s2, s3, j, i, hI2, by omega, by rw [g2, g3]; exact f1b, by intro h; rw [g4]; exact f1c h, hmem,
+    by rw [g6, f1d], by rw [g7, f1e], by rw [g8, f1f], by rw [g9, f1g], by rw [g10, f1h], by rw [g11, f1i], hp, he, hfit⟩
+
+theorem mockStep_panic (cfg : Cfg) (s s' : St) (b v : Nat) (m : String) (kind : Kind) (fits : Bool) (c : String) (hI : Inv cfg s)
+    (hs : mockStep cfg s b v m kind fits = some (s', .panic c)) :
     Inv cfg s' ∧ s'.vars = s.vars ∧ s'.fakes = s.fakes := by
   have hI0 := inv_ncb cfg s (s.ncb + 1) hI
   have f1 := interfaceOf_facts cfg _ b v hI0
@@ -372,47 +459,23 @@ theorem mockStep_panic (cfg : Cfg) (s s' : St) (b v : Nat) (m : String) (kind : 
   obtain ⟨j, s1⟩ := r1
   simp only at hs f1 hI1
   obtain ⟨f1a, f1b, f1c, f1d, f1e, f1f, f1g, f1h, f1i, f1j⟩ := f1
-  split at hs
-  · simp only [Option.some.injEq, Prod.mk.injEq] at hs; obtain ⟨h1, _⟩ := hs; subst h1; exact ⟨hI1, f1d, f1e⟩
-  split at hs
-  · simp only [Option.some.injEq, Prod.mk.injEq] at hs; obtain ⟨h1, _⟩ := hs; subst h1; exact ⟨hI1, f1d, f1e⟩
-  generalize hr2 : methodOf s1 j m = r2 at hs
-  obtain ⟨i, s2⟩ := r2
-  simp only at hs
-  cases kind with
-  | ap =>
-    simp only at hs
-    cases hq : proxyInterface cfg s2 (s1.cms j).var (s1.cms j).typ (s1.cms j).ctx m s.ncb .clo with
-    | none => simp [hq] at hs
-    | some s3 => simp [hq] at hs
-  | rt =>
-    simp only at hs
-    split at hs
-    · cases hs
-    · cases hq : proxyInterface cfg s2 (s1.cms j).var (s1.cms j).typ (s1.cms j).ctx m s.ncb (.mk i) with
-      | none => simp [hq] at hs
-      | some s3 => simp [hq] at hs
-  | wn a =>
-    simp only at hs
-    split at hs
-    · cases hs
-    · cases hq : proxyInterface cfg s2 (s1.cms j).var (s1.cms j).typ (s1.cms j).ctx m s.ncb (.mk i) with
-      | none => simp [hq] at hs
-      | some s3 => simp [hq] at hs
+  obtain ⟨h1, h2, h3, _, _⟩ := mockOn_panic cfg s1 s' j m kind fits s.ncb c hI1 hs
+  exact ⟨h1, by rw [h2, f1d], by rw [h3, f1e]⟩
 
-theorem inv_mockStep (cfg : Cfg) (s s' : St) (b v : Nat) (m : String) (kind : Kind) (st : Status) (hI : Inv cfg s)
-    (hs : mockStep cfg s b v m kind = some (s', st)) : Inv cfg s' := by
+theorem inv_mockStep (cfg : Cfg) (s s' : St) (b v : Nat) (m : String) (kind : Kind) (fits : Bool) (st : Status) (hI : Inv cfg s)
+    (hs : mockStep cfg s b v m kind fits = some (s', st)) : Inv cfg s' := by
   cases st with
-  | panic c => exact (mockStep_panic cfg s s' b v m kind c hI hs).1
+  | panic c => exact (mockStep_panic cfg s s' b v m kind fits c hI hs).1
   | ok =>
-    obtain ⟨s2, s3, j, i, hI2, hj, hcn, _, _, _, _, _, _, _, _, hp, he⟩ := mockStep_ok cfg s s' b v m kind hI hs
+    obtain ⟨s2, s3, j, i, hI2, hj, hcn, _, _, _, _, _, _, _, _, hp, he, _⟩ := mockStep_ok cfg s s' b v m kind fits hI hs
     subst he
     exact inv_mms cfg _ _ _ (inv_proxyInterface cfg s2 s3 j m _ _ hI2 hj hcn hp)
 
-theorem inv_step (cfg : Cfg) (s s' : St) (op : Op) (st : Status) (hI : Inv cfg s)
+theorem inv_step (cfg : Cfg) (s s' : St) (op : Op) (st : Status) (hI : Inv cfg s) (hapi : op.builderApi = true)
     (hs : step cfg s op = some (s', st)) : Inv cfg s' := by
   cases op with
-  | mock b v m kind => exact inv_mockStep cfg s s' b v m kind st hI hs
+  | mock b v m kind fits => exact inv_mockStep cfg s s' b v m kind fits st hI hs
+  | mockH b v m kind fits => simp [Op.builderApi] at hapi
   | reset b =>
     simp only [step, resetStep] at hs
     cases hq : cancelMMs s (mmsOf s b) with
@@ -426,18 +489,20 @@ theorem inv_step (cfg : Cfg) (s s' : St) (op : Op) (st : Status) (hI : Inv cfg s
     obtain ⟨h1, _⟩ := hs; subst h1
     exact inv_drop cfg s b hI
 
-theorem inv_run (cfg : Cfg) (ops : List Op) : ∀ (s s' : St), Inv cfg s → run cfg s ops = some s' → Inv cfg s' := by
+theorem inv_run (cfg : Cfg) (ops : List Op) : ∀ (s s' : St), Inv cfg s → (∀ op ∈ ops, op.builderApi = true) →
+    run cfg s ops = some s' → Inv cfg s' := by
   induction ops with
-  | nil => intro s s' hI hs; simp only [run, Option.some.injEq] at hs; subst hs; exact hI
+  | nil => intro s s' hI _ hs; simp only [run, Option.some.injEq] at hs; subst hs; exact hI
   | cons op r ih =>
-    intro s s' hI hs
+    intro s s' hI hapi hs
     simp only [run] at hs
     cases hq : step cfg s op with
     | none => simp [hq] at hs
     | some p =>
       obtain ⟨s1, st⟩ := p
       simp only [hq, Option.bind_some] at hs
-      exact ih s1 s' (inv_step cfg s s1 op st hI hq) hs
+      exact ih s1 s' (inv_step cfg s s1 op st hI (hapi op List.mem_cons_self) hq)
+        (fun o ho => hapi o (List.mem_cons_of_mem _ ho)) hs
 
 theorem lookup_mem {κ : Type} [DecidableEq κ] (k : κ) (v : Nat) (l : List (κ × Nat)) (h : lookup k l = some v) : (k, v) ∈ l := by
   induction l with
@@ -506,15 +571,15 @@ theorem proxyInterface_out (cfg : Cfg) (s s' : St) (v t c : Nat) (m : String) (k
 
 /-- independence at one mock step: mocking variable `v` leaves every other variable's two words and the function table
     they dispatch through untouched -/
-theorem mock_other_vars (cfg : Cfg) (hk : cfg.keyByVar = true) (s s' : St) (b v : Nat) (m : String) (kind : Kind) (st : Status)
-    (hI : Inv cfg s) (hs : mockStep cfg s b v m kind = some (s', st)) (w : Nat) (hw : w ≠ v) :
+theorem mock_other_vars (cfg : Cfg) (hk : cfg.keyByVar = true) (s s' : St) (b v : Nat) (m : String) (kind : Kind) (fits : Bool)
+    (st : Status) (hI : Inv cfg s) (hs : mockStep cfg s b v m kind fits = some (s', st)) (w : Nat) (hw : w ≠ v) :
     s'.vars w = s.vars w ∧ ∀ f c, s.vars w = .fake f c → s'.fakes f = s.fakes f := by
   cases st with
   | panic c =>
-    obtain ⟨_, h1, h2⟩ := mockStep_panic cfg s s' b v m kind c hI hs
+    obtain ⟨_, h1, h2⟩ := mockStep_panic cfg s s' b v m kind fits c hI hs
     exact ⟨by rw [h1], fun f c _ => by rw [h2]⟩
   | ok =>
-    obtain ⟨s2, s3, j, i, hI2, hj, hcn, hvar, hmem, e1, e2, e3, e4, e5, e6, hp, he⟩ := mockStep_ok cfg s s' b v m kind hI hs
+    obtain ⟨s2, s3, j, i, hI2, hj, hcn, hvar, hmem, e1, e2, e3, e4, e5, e6, hp, he, hfit⟩ := mockStep_ok cfg s s' b v m kind fits hI hs
     obtain ⟨f, g, o1, o2, o3, o4, o5, o6, o7⟩ := proxyInterface_out cfg s2 s3 _ _ _ m _ _ hcn hp
     have hv := hvar hk
     subst he
@@ -544,14 +609,13 @@ theorem methodIndexOf_eq_idxOf (ms : List String) (m : String) (h : m ∈ ms) : 
 
 /-- the structural effect of a successful mock of method `m` of variable `v` (repaired key): the variable holds a fake
     iface whose table is `g` with the slot *at the position of `m` in the method set* pointing at the new callback -/
-theorem mock_dispatch (cfg : Cfg) (hk : cfg.keyByVar = true) (s s' : St) (b v : Nat) (m : String) (kind : Kind)
-    (hI : Inv cfg s) (hs : mockStep cfg s b v m kind = some (s', .ok)) :
+theorem mock_dispatch (cfg : Cfg) (hk : cfg.keyByVar = true) (s s' : St) (b v : Nat) (m : String) (kind : Kind) (fits : Bool)
+    (hI : Inv cfg s) (hs : mockStep cfg s b v m kind fits = some (s', .ok)) :
     ∃ f c g i, s'.vars v = .fake f c ∧ s'.types = s.types ∧ s'.vtyp = s.vtyp ∧ m ∈ s.types (s.vtyp v)
       ∧ (s'.fakes f).fn = upd g ((s.types (s.vtyp v)).idxOf m) (.stub s.ncb)
       ∧ ((f = s.nfake ∧ g = fun _ => Slot.notImpl) ∨ (f < s.nfake ∧ g = (s.fakes f).fn))
-      ∧ s'.cbs s.ncb = cbOf kind i ∧ (s'.mms i).when_ = whenOf kind s.ncb (s'.mms i).when_
-      ∧ (kind ≠ .ap → (s'.mms i).when_ = whenOf kind s.ncb none) := by
-  obtain ⟨s2, s3, j, i, hI2, hj, hcn, hvar, hmem, e1, e2, e3, e4, e5, e6, hp, he⟩ := mockStep_ok cfg s s' b v m kind hI hs
+      ∧ s'.cbs s.ncb = cbOf kind i ∧ (s'.mms i).when_ = whenOf kind s.ncb ∧ fits = true := by
+  obtain ⟨s2, s3, j, i, hI2, hj, hcn, hvar, hmem, e1, e2, e3, e4, e5, e6, hp, he, hfit⟩ := mockStep_ok cfg s s' b v m kind fits hI hs
   obtain ⟨f, g, o1, o2, o3, o4, o5, o6, o7⟩ := proxyInterface_out cfg s2 s3 _ _ _ m _ _ hcn hp
   have hv := hvar hk
   have htyp : (s2.cms j).typ = s.vtyp v := by rw [(hI2.e j hj).2, hv, e5]
@@ -567,13 +631,7 @@ theorem mock_dispatch (cfg : Cfg) (hk : cfg.keyByVar = true) (s s' : St) (b v : 
     · exact Or.inr ⟨by rw [← e3]; exact (hI2.b _ _ _ h1).1, by rw [h2, e2]⟩
   · simp only; rw [o4]; exact upd_same _ _ _
   · simp only [upd_same]
-    cases kind <;> rfl
-  · intro hne
-    simp only [upd_same]
-    cases kind with
-    | ap => exact absurd rfl hne
-    | rt => rfl
-    | wn a => rfl
+  · exact hfit
 
 
 theorem upd_upd {α : Type} (f : Nat → α) (i : Nat) (x : α) : upd (upd f i x) i x = upd f i x := by
